@@ -520,7 +520,8 @@ class Check(PropertyCheck):
         'translator harness/gen/gen_c03_code.py (fail-closed): the bodies of astutils.infer_type/_annotation_for_value/_annotation_for_elements, '
         'model.is_exception and ModuleVistor._handleOldSchoolMethodDecoration -> Gen/BuilderCode.v in the language of Model/BuilderIR.v; its '
         'primitives (ast.literal_eval, ast.Name/Tuple/Constant/Subscript constructors, set of str, Class.mro(True, False), contents.get, '
-        'isinstance on the inspected trees, tuple membership by ==) are stated assumptions',
+        'isinstance on the inspected trees, tuple membership by ==) are stated assumptions; calls of same-module functions / same-class '
+        'methods are inlined by the translator (fresh variables, SCall), which is trusted to keep evaluation order (it refuses conditional positions)',
         'translator harness/gen/gen_c03.py (fail-closed): _STD_LIB_EXCEPTIONS, MODULE_VARIABLES_META_PARSERS, _CONTROL_FLOW_BLOCKS, '
         'the attribute get_children iterates, the names _handleOldSchoolMethodDecoration accepts',
         'extraction ExtrOcamlBasic only + coq/ocaml/driver.ml; harness/c03*.py, harness/impl/c03_*.py (pretty-printer, adapters)',
